@@ -1152,7 +1152,20 @@ static void perturb(const Space &S, ob::State *s, int m, vt::Rng &rng)
             v[0] = std::max((double)INT_MIN, std::min((double)INT_MAX, nv));
         }
         else if (L.t == "SO2")
+        {
             v[0] += ANG[m] * (2 * rng.unit() - 1);
+            // the doubles next to the seam and to the next odd multiples of pi, from both sides: wrap-around code
+            // rounds exactly here (an input a hair below -pi must not come back as +pi)
+            if (m == 1 && rng.below(6) == 0)
+            {
+                const double odd = (2 * rng.below(3) + 1) * PI * (rng.below(2) ? 1 : -1);
+                v[0] = odd;
+                for (int k = rng.below(3); k > 0; --k)
+                    v[0] = std::nextafter(v[0], rng.below(2) ? 1e300 : -1e300);
+                if (rng.below(2))
+                    v[0] = std::nextafter(odd, odd < 0 ? -1e300 : 1e300);
+            }
+        }
         else if (L.t == "SO3")
         {
             // 1: inside the first-order regime, 2: moderately off + direction noise, 3: tiny, 4: huge
